@@ -2,6 +2,7 @@
   Helper lemmas for C21 about the reader model (`separate_rules`, the line-joining loop).
 -/
 import SuironVerif.Model.Reader
+import SuironVerif.Lemmas.ParseToken
 namespace Suiron.Parse
 
 /-! ### `separate_rules`: frame and concatenation lemmas -/
@@ -176,5 +177,265 @@ theorem joinLines_reject : ∀ (lines : List Text) (acc : Text),
         | nil => simp [hs, checkLastChar] at hc
         | cons a b => rfl
       simp [he, hc]
+
+
+
+/-- the state `strip_comments` is in after scanning a text in which it found no comment -/
+def stripScan : Text → StripSt → StripSt
+  | [], st => st
+  | ch :: rest, st =>
+    if ch == '(' then stripScan rest { st with round := st.round + 1, prev := ch }
+    else if ch == '[' then stripScan rest { st with square := st.square + 1, prev := ch }
+    else if ch == ')' then stripScan rest { st with round := st.round - 1, prev := ch }
+    else if ch == ']' then stripScan rest { st with square := st.square - 1, prev := ch }
+    else stripScan rest { st with prev := ch }
+
+theorem commentStart_append : ∀ (a b : Text) (i : Nat) (st : StripSt), commentStart a i st = none →
+    commentStart (a ++ b) i st = commentStart b (i + a.length) (stripScan a st) := by
+  intro a
+  induction a with
+  | nil => intro b i st _; simp [stripScan]
+  | cons ch a ih =>
+    intro b i st h
+    simp only [List.cons_append, commentStart, stripScan, List.length_cons] at h ⊢
+    split
+    · rename_i h1; simp only [h1, if_true] at h; rw [ih _ _ _ h]; congr 1; omega
+    split
+    · rename_i h1 h2; simp only [h1, h2, if_true, Bool.false_eq_true, if_false] at h; rw [ih _ _ _ h]; congr 1; omega
+    split
+    · rename_i h1 h2 h3; simp only [h1, h2, h3, if_true, Bool.false_eq_true, if_false] at h; rw [ih _ _ _ h]; congr 1; omega
+    split
+    · rename_i h1 h2 h3 h4; simp only [h1, h2, h3, h4, if_true, Bool.false_eq_true, if_false] at h; rw [ih _ _ _ h]; congr 1; omega
+    · rename_i h1 h2 h3 h4
+      simp only [h1, h2, h3, h4, Bool.false_eq_true, if_false] at h
+      by_cases hd : (st.round == 0 && st.square == 0) = true
+      · simp only [hd, if_true] at h ⊢
+        by_cases hc : (ch == '#' || ch == '%') = true
+        · simp only [hc, if_true] at h; cases h
+        · by_cases hs : (ch == '/' && st.prev == '/') = true
+          · simp only [hc, hs, if_true, Bool.false_eq_true, if_false] at h; cases h
+          · simp only [hc, hs, Bool.false_eq_true, if_false] at h ⊢
+            rw [ih _ _ _ h]; congr 1; omega
+      · simp only [hd, Bool.false_eq_true, if_false] at h ⊢
+        rw [ih _ _ _ h]; congr 1; omega
+
+
+
+theorem ws_not_special {c : Char} (h : isWs c = true) :
+    c ≠ '(' ∧ c ≠ ')' ∧ c ≠ '[' ∧ c ≠ ']' ∧ c ≠ '#' ∧ c ≠ '%' ∧ c ≠ '/' := by
+  refine ⟨?_, ?_, ?_, ?_, ?_, ?_, ?_⟩ <;> (intro he; subst he; revert h; decide)
+
+/-- blanks are never a comment and never change the bracket depths -/
+theorem commentStart_ws : ∀ (w : Text) (i : Nat) (st : StripSt), (∀ c ∈ w, isWs c = true) →
+    commentStart w i st = none ∧ (stripScan w st).round = st.round ∧ (stripScan w st).square = st.square ∧
+    (stripScan w st).prev = (w.getLast?.getD st.prev) := by
+  intro w
+  induction w with
+  | nil => intro i st _; simp [commentStart, stripScan]
+  | cons c w ih =>
+    intro i st h
+    obtain ⟨h1, h2, h3, h4, h5, h6, h7⟩ := ws_not_special (h c (by simp))
+    have := ih (i + 1) { st with prev := c } (fun x hx => h x (by simp [hx]))
+    simp only [commentStart, stripScan, show (c == '(') = false from by simpa using h1, show (c == '[') = false from by simpa using h3,
+      show (c == ')') = false from by simpa using h2, show (c == ']') = false from by simpa using h4,
+      show (c == '#') = false from by simpa using h5, show (c == '%') = false from by simpa using h6,
+      show (c == '/') = false from by simpa using h7, Bool.false_eq_true, if_false, Bool.or_self, Bool.false_and]
+    refine ⟨?_, this.2.1, this.2.2.1, ?_⟩
+    · split <;> exact this.1
+    · rw [this.2.2.2]
+      cases w with
+      | nil => simp
+      | cons a b =>
+        have : ∃ z, (a :: b).getLast? = some z := by
+          cases hl : (a :: b).getLast? with
+          | none => simp [List.getLast?_eq_none_iff] at hl
+          | some z => exact ⟨z, rfl⟩
+        obtain ⟨z, hz⟩ := this
+        simp [List.getLast?_cons_cons, hz]
+
+/-- whether a comment is found does not depend on the starting index, nor on the previous character
+    except through "is it a slash" -/
+theorem commentStart_none_indep : ∀ (p : Text) (i j : Nat) (st st' : StripSt), st.round = st'.round → st.square = st'.square →
+    (st.prev = '/' ↔ st'.prev = '/') → commentStart p i st = none → commentStart p j st' = none := by
+  intro p
+  induction p with
+  | nil => intros; simp [commentStart]
+  | cons ch p ih =>
+    intro i j st st' hr hs hp h
+    simp only [commentStart] at h ⊢
+    split
+    · rename_i h1; simp only [h1, if_true] at h; exact ih _ _ _ _ (by simp [hr]) (by simp [hs]) (by simp) h
+    split
+    · rename_i h1 h2; simp only [h1, h2, if_true, Bool.false_eq_true, if_false] at h; exact ih _ _ _ _ (by simp [hr]) (by simp [hs]) (by simp) h
+    split
+    · rename_i h1 h2 h3; simp only [h1, h2, h3, if_true, Bool.false_eq_true, if_false] at h; exact ih _ _ _ _ (by simp [hr]) (by simp [hs]) (by simp) h
+    split
+    · rename_i h1 h2 h3 h4; simp only [h1, h2, h3, h4, if_true, Bool.false_eq_true, if_false] at h; exact ih _ _ _ _ (by simp [hr]) (by simp [hs]) (by simp) h
+    · rename_i h1 h2 h3 h4
+      simp only [h1, h2, h3, h4, Bool.false_eq_true, if_false] at h
+      rw [← hr, ← hs]
+      by_cases hd : (st.round == 0 && st.square == 0) = true
+      · simp only [hd, if_true] at h ⊢
+        by_cases hc : (ch == '#' || ch == '%') = true
+        · simp only [hc, if_true] at h; cases h
+        · by_cases hsl : (ch == '/' && st.prev == '/') = true
+          · simp only [hc, hsl, if_true, Bool.false_eq_true, if_false] at h; cases h
+          · have hsl' : (ch == '/' && st'.prev == '/') = false := by
+              simp only [Bool.and_eq_true, beq_iff_eq, not_and] at hsl
+              cases hch : (ch == '/') with
+              | false => simp
+              | true =>
+                have : ¬ st.prev = '/' := hsl (by simpa using hch)
+                have : ¬ st'.prev = '/' := fun h' => this (hp.mpr h')
+                simp [this]
+            simp only [hc, hsl, hsl', Bool.false_eq_true, if_false] at h ⊢
+            exact ih _ _ _ _ (by simp [hr]) (by simp [hs]) (by simp) h
+      · simp only [hd, Bool.false_eq_true, if_false] at h ⊢
+        exact ih _ _ _ _ (by simp [hr]) (by simp [hs]) (by simp) h
+
+
+
+theorem getLast_cons_getD (ch : Char) (p : Text) (d : Char) : (ch :: p).getLast?.getD d = p.getLast?.getD ch := by
+  cases p with
+  | nil => simp
+  | cons a b =>
+    have : ∃ z, (a :: b).getLast? = some z := by
+      cases hl : (a :: b).getLast? with
+      | none => simp [List.getLast?_eq_none_iff] at hl
+      | some z => exact ⟨z, rfl⟩
+    obtain ⟨z, hz⟩ := this
+    simp [List.getLast?_cons_cons, hz]
+
+theorem stripScan_rel : ∀ (p : Text) (st st' : StripSt),
+    (stripScan p st).round = st.round + ((stripScan p st').round - st'.round) ∧
+    (stripScan p st).square = st.square + ((stripScan p st').square - st'.square) ∧
+    (stripScan p st).prev = p.getLast?.getD st.prev := by
+  intro p
+  induction p with
+  | nil => intro st st'; simp [stripScan]
+  | cons ch p ih =>
+    intro st st'
+    simp only [stripScan, getLast_cons_getD]
+    split
+    · have a := ih { st with round := st.round + 1, prev := ch } { st' with round := st'.round + 1, prev := ch }
+      simp only at a
+      exact ⟨by omega, by omega, a.2.2⟩
+    split
+    · have a := ih { st with square := st.square + 1, prev := ch } { st' with square := st'.square + 1, prev := ch }
+      simp only at a
+      exact ⟨by omega, by omega, a.2.2⟩
+    split
+    · have a := ih { st with round := st.round - 1, prev := ch } { st' with round := st'.round - 1, prev := ch }
+      simp only at a
+      exact ⟨by omega, by omega, a.2.2⟩
+    split
+    · have a := ih { st with square := st.square - 1, prev := ch } { st' with square := st'.square - 1, prev := ch }
+      simp only at a
+      exact ⟨by omega, by omega, a.2.2⟩
+    · have a := ih { st with prev := ch } { st' with prev := ch }
+      simp only at a
+      exact ⟨by omega, by omega, a.2.2⟩
+
+/-- a piece of a rule as it stands on one line: not blank at either end, no comment character outside
+    brackets, brackets closed, not ending in a slash -/
+structure CleanPiece (p : Text) : Prop where
+  ne : p ≠ []
+  first : ∀ a, p.head? = some a → isWs a = false
+  last : ∀ a, p.getLast? = some a → isWs a = false ∧ a ≠ '/'
+  noComment : commentStart p 0 {} = none
+  closed : (stripScan p {}).round = 0 ∧ (stripScan p {}).square = 0
+
+/-- what may follow a piece on its line: nothing, or a comment introduced by `#`, `%` or `//` -/
+def IsComment (c : Text) : Prop :=
+  c = [] ∨ (∃ r, c = '#' :: r) ∨ (∃ r, c = '%' :: r) ∨ (∃ r, c = '/' :: '/' :: r)
+
+theorem dropWhile_ws_append {w rest : Text} (hw : ∀ c ∈ w, isWs c = true) : (w ++ rest).dropWhile isWs = rest.dropWhile isWs := by
+  induction w with
+  | nil => rfl
+  | cons c w ih =>
+    simp only [List.cons_append]
+    rw [List.dropWhile_cons_of_pos (hw c (by simp))]
+    exact ih (fun x hx => hw x (by simp [hx]))
+
+theorem trim_pad {p indent trail : Text} (hp : CleanPiece p) (hi : ∀ c ∈ indent, isWs c = true) (ht : ∀ c ∈ trail, isWs c = true) :
+    trim (indent ++ p ++ trail) = p := by
+  unfold trim trimEnd trimStart
+  rw [List.append_assoc, dropWhile_ws_append hi]
+  obtain ⟨hne, hf, hl, _, _⟩ := hp
+  cases p with
+  | nil => exact absurd rfl hne
+  | cons a t =>
+    rw [show (a :: t) ++ trail = a :: (t ++ trail) from rfl, dropWhile_head_false (hf a rfl)]
+    rw [show a :: (t ++ trail) = (a :: t) ++ trail from rfl, List.reverse_append]
+    rw [dropWhile_ws_append (fun c hc => ht c (by simpa using hc))]
+    cases hr : (a :: t).reverse with
+    | nil => simp at hr
+    | cons b u =>
+      have hb : (a :: t).getLast? = some b := by rw [List.getLast?_eq_head?_reverse, hr]; rfl
+      rw [dropWhile_head_false (hl b hb).1, ← hr, List.reverse_reverse]
+
+/-- `strip_comments` on a line = indentation, piece, blanks, optional comment gives back the piece -/
+theorem stripComments_line {p indent trail comment : Text} (hp : CleanPiece p)
+    (hi : ∀ c ∈ indent, isWs c = true) (ht : ∀ c ∈ trail, isWs c = true) (hc : IsComment comment) :
+    stripComments (indent ++ p ++ trail ++ comment) = p := by
+  -- scan the indentation
+  have s1 := commentStart_ws indent 0 {} hi
+  -- scan the piece
+  have hprev1 : (stripScan indent {}).prev ≠ '/' := by
+    rw [s1.2.2.2]
+    cases hl : indent.getLast? with
+    | none => simp
+    | some z => simp; exact (ws_not_special (hi z (List.mem_of_getLast? hl))).2.2.2.2.2.2
+  have s2 : commentStart p (0 + indent.length) (stripScan indent {}) = none :=
+    commentStart_none_indep p 0 _ {} _ (by rw [s1.2.1]) (by rw [s1.2.2.1])
+      (by constructor
+          · intro h; exact absurd h (by decide : ¬ ({} : StripSt).prev = '/')
+          · intro h; exact absurd h hprev1) hp.noComment
+  have r2 := stripScan_rel p (stripScan indent {}) {}
+  have hlastp : ∃ z, p.getLast? = some z := by
+    cases hl : p.getLast? with
+    | none => simp [List.getLast?_eq_none_iff] at hl; exact absurd hl hp.ne
+    | some z => exact ⟨z, rfl⟩
+  obtain ⟨z, hz⟩ := hlastp
+  -- scan the blanks after the piece
+  have s3 := commentStart_ws trail (0 + indent.length + p.length) (stripScan p (stripScan indent {})) ht
+  have hdepth : (stripScan trail (stripScan p (stripScan indent {}))).round = 0 ∧ (stripScan trail (stripScan p (stripScan indent {}))).square = 0 := by
+    rw [s3.2.1, s3.2.2.1, r2.1, r2.2.1, s1.2.1, s1.2.2.1, hp.closed.1, hp.closed.2]; simp
+  have hprev3 : (stripScan trail (stripScan p (stripScan indent {}))).prev ≠ '/' := by
+    rw [s3.2.2.2, r2.2.2, hz]
+    cases hl : trail.getLast? with
+    | none => simp; exact (hp.last z hz).2
+    | some y => simp; exact (ws_not_special (ht y (List.mem_of_getLast? hl))).2.2.2.2.2.2
+  -- put the three scans together
+  have hscan : ∀ rest, commentStart (indent ++ p ++ trail ++ rest) 0 {} =
+      commentStart rest (indent.length + p.length + trail.length) (stripScan trail (stripScan p (stripScan indent {}))) := by
+    intro rest
+    rw [show indent ++ p ++ trail ++ rest = indent ++ (p ++ (trail ++ rest)) from by simp]
+    rw [commentStart_append _ _ _ _ s1.1, commentStart_append _ _ _ _ s2, commentStart_append _ _ _ _ s3.1]
+    simp
+  unfold stripComments
+  rcases hc with rfl | ⟨r, rfl⟩ | ⟨r, rfl⟩ | ⟨r, rfl⟩
+  · rw [hscan []]; simp only [commentStart, List.append_nil]; exact trim_pad hp hi ht
+  · rw [hscan]
+    simp only [commentStart, hdepth.1, hdepth.2, show (('#' : Char) == '(') = false from by decide, show (('#' : Char) == '[') = false from by decide,
+      show (('#' : Char) == ')') = false from by decide, show (('#' : Char) == ']') = false from by decide, Bool.false_eq_true, if_false,
+      show ((0:Int) == 0 && (0:Int) == 0) = true from rfl, if_true, show (('#' : Char) == '#' || ('#' : Char) == '%') = true from by decide]
+    rw [show indent ++ p ++ trail ++ '#' :: r = (indent ++ p ++ trail) ++ '#' :: r from rfl, List.take_left' (by simp; omega)]
+    exact trim_pad hp hi ht
+  · rw [hscan]
+    simp only [commentStart, hdepth.1, hdepth.2, show (('%' : Char) == '(') = false from by decide, show (('%' : Char) == '[') = false from by decide,
+      show (('%' : Char) == ')') = false from by decide, show (('%' : Char) == ']') = false from by decide, Bool.false_eq_true, if_false,
+      show ((0:Int) == 0 && (0:Int) == 0) = true from rfl, if_true, show (('%' : Char) == '#' || ('%' : Char) == '%') = true from by decide]
+    rw [show indent ++ p ++ trail ++ '%' :: r = (indent ++ p ++ trail) ++ '%' :: r from rfl, List.take_left' (by simp; omega)]
+    exact trim_pad hp hi ht
+  · rw [hscan]
+    have hne : ((stripScan trail (stripScan p (stripScan indent {}))).prev == '/') = false := by simpa using hprev3
+    simp only [commentStart, hdepth.1, hdepth.2, show (('/' : Char) == '(') = false from by decide, show (('/' : Char) == '[') = false from by decide,
+      show (('/' : Char) == ')') = false from by decide, show (('/' : Char) == ']') = false from by decide, Bool.false_eq_true, if_false,
+      show ((0:Int) == 0 && (0:Int) == 0) = true from rfl, if_true, show (('/' : Char) == '#' || ('/' : Char) == '%') = false from by decide,
+      show (('/' : Char) == '/') = true from by decide, Bool.true_and, hne]
+    simp only [Nat.add_sub_cancel]
+    rw [show indent ++ p ++ trail ++ '/' :: '/' :: r = (indent ++ p ++ trail) ++ '/' :: '/' :: r from rfl, List.take_left' (by simp; omega)]
+    exact trim_pad hp hi ht
 
 end Suiron.Parse
